@@ -150,6 +150,13 @@ func alStreamEvent(pk *alPkg, up bool, items []M) M {
 	if res != "" {
 		return ev
 	}
+	if curCtx != nil && curCtx.rnd.Intn(3) == 0 { // the same commands and another package's output are encoded again before b is read
+		observeFast(func() error {
+			pk.marshal(cmds[:len(cmds)/2])
+			disturb()
+			return nil
+		})
+	}
 	ev["bytes"] = bs(b)
 	var back []alCmd
 	in := append([]byte{}, b...)
